@@ -108,6 +108,8 @@ func cmdCases(args []string) {
 		obs, err = cases.Upstream(w, raws)
 	case "reconfig":
 		obs, err = cases.Reconfig(w, raws)
+	case "restart":
+		obs, err = cases.Restart(w, raws)
 	case "keycodec":
 		obs, err = cases.KeyCodec(w, raws)
 	case "proxyxform":
